@@ -9,6 +9,11 @@ CONSTANT Tier
 TierConfigs == ConfigSpace(Tier)
 DoExport == Export(Configs) /\ PrintT(<<"GEN-CONFIGS", Cardinality(Configs)>>)
 
+\* C05, loader part: the loader model answers every configuration of the space (no unbounded recursion)
+LoaderTotal == \A g \in Configs : Accepts(g) \in {"accepted", "rejected"}
+CONSTANT CheckLoader
+ASSUME CheckLoader => LoaderTotal
+
 \* non-vacuity witnesses (expected to be violated)
 NoAnswer == ~(Done /\ \E i \in 1..Len(exec) : exec[i].dir = "res" /\ txdir = "req")
 NoFanOut == ~(Done /\ \E i, j \in 1..Len(exec) : i < j /\ exec[i].key = exec[j].key)
